@@ -67,6 +67,9 @@ func genKeys(rng *vrt.Rand, n int) [][]byte {
 		case rng.Chance(0.01):
 			// a key longer than the two-byte varint range
 			k = []byte(fmt.Sprintf("huge%d-%s", i, strings.Repeat("y", rng.Range(16384, 17000))))
+		case rng.Chance(0.006):
+			// a key longer than a block: its record and its hint entry span several chunks whatever the value is
+			k = []byte(fmt.Sprintf("giant%d-%s", i, strings.Repeat("z", rng.Range(33000, 70000))))
 		case style == 0:
 			k = []byte(fmt.Sprintf("k%d", i))
 		case style == 1:
